@@ -412,6 +412,39 @@ def run_validated(chk, fx, prefix="C03"):
                 chk.violation(r, key, "%s validates its parameter `%s` in a throwing guard (line %d) and never uses it again: whatever it does, it does for another value than the one that was requested and checked" % (f["q"], p_, in_guard[0]["l"]), f["file"], in_guard[0]["l"])
 
 
+def run_itemused(chk, fx, prefix="C03"):
+    r = chk.rule(prefix + ".itemused", "in the keyword handlers of opm/input/eclipse/Schedule, a local that is initialised from an item of the record being handled (record.getItem(...)...) is referred to afterwards: an item that is read into a local and then never looked at is an input the handler silently ignores (the assignment that carried it into the state has been lost)", floor=300)
+    n_i = 0
+    for f in fx.fns:
+        if not f.get("body") or not f["file"].startswith(core.REPO + "/opm/input/eclipse/Schedule/"):
+            continue
+        decls = []
+        for n in walk(f["body"]):
+            if n["k"] == "Decl":
+                for v in n["vars"]:
+                    if isinstance(v.get("init"), dict) and any(x["k"] == "MCall" and x.get("m") == "getItem" for x in walk(v["init"])) and v.get("n"):
+                        decls.append(v)
+        if not decls:
+            continue
+        refs = {}
+        for n in walk(f["body"]):
+            if n["k"] == "Ref" and n.get("d") in ("Var",):
+                refs.setdefault((n["n"], n.get("dl")), 0)
+                refs[(n["n"], n.get("dl"))] += 1
+            elif n["k"] == "Lambda":
+                for c in n.get("caps") or []:
+                    if isinstance(c, dict) and c.get("n"):
+                        for v in decls:
+                            if v["n"] == c["n"]:
+                                refs[(v["n"], v.get("l"))] = refs.get((v["n"], v.get("l")), 0) + 1
+        for v in decls:
+            n_i += 1
+            used = refs.get((v["n"], v.get("l")), 0)
+            chk.instance(r, "%s:%s@%s" % (f["q"], v["n"], v.get("l")), sample=dict(function=f["q"], local=v["n"], item=show(v["init"])[:90], references=used))
+            if not used:
+                chk.violation(r, "%s:%s" % (f["q"], v["n"]), "%s reads `%s = %s` (line %s) and never refers to `%s` again: this record item no longer reaches the state" % (f["q"], v["n"], show(v["init"])[:110], v.get("l"), v["n"]), f["file"], v.get("l"))
+
+
 def run_dedupe(chk, fx, prefix="C03"):
     r = chk.rule(prefix + ".dedupe", "Schedule::applyWellProdIndexScaling rescales the connection sets of the well from the WELPI step onwards in place; consecutive well objects may share one connection set (hasSameConnectionsPointers), so the loop scales an object only if it does not share its set with the LAST SCALED one - the branch that scales also records the object as that reference (prev = current) - otherwise a shared set is scaled once per well object that happens to reference it, and how many do is decided by later input", floor=1)
     fs = [f for f in fx.fn("Opm::Schedule::applyWellProdIndexScaling") if f.get("body")]
@@ -465,6 +498,7 @@ def run(chk):
     fx = chk.facts(units)
     run_lostupdate(chk, fx, "C03")
     run_dedupe(chk, fx, "C03")
+    run_itemused(chk, fx, "C03")
     fh = chk.facts(["opm/input/eclipse/Schedule/Schedule.cpp"], files_re="^/repo/opm/input/eclipse/Schedule/", fn_re="^$")
     for q, r in fh.recs.items():
         fx.recs.setdefault(q, r)
